@@ -361,6 +361,29 @@ def _decimal_chunk(values):
     return part
 
 
+def check_equal_value_histories(part):
+    """Two calls in a row whose arguments compare equal and are not the same (0.0 after -0.0, 1
+    after 1.0 after True, 10 after 10.0): a table of recent answers indexed by the argument
+    finds the earlier entry.  The second answer is judged on its own."""
+    text_utils = _lib()
+    pairs = [(-0.0, 0.0), (-0.0, 0), (0.0, 0), (True, 1), (1.0, 1), (1, 1.0), (10.0, 10), (10, 10.0),
+             (59.5, 59.5), (3600.0, 3600), (False, 0.0)]
+    for first, second in pairs:
+        for millis in (False, True):
+            try:
+                text_utils.format_hms(first, millis)
+            except Exception:               # pylint: disable=broad-except
+                pass
+            bad = check_duration(second, millis)
+            part.count("duration_cases")
+            part.count("equal_value_histories")
+            for clause, msg in bad:
+                part.violation(f"{clause}:after:{first!r}:{second!r}:{millis}",
+                               msg + f" - right after format_hms({first!r}, {millis})",
+                               {"kind": "duration_after", "first": repr(first), "value": second,
+                                "milliseconds": millis})
+
+
 def _dispatch(job):
     return {"esc": _escape_chunk, "dur": _duration_chunk, "half": _half_chunk,
             "halfms": _halfms_chunk,
@@ -408,6 +431,7 @@ def run(ctx):
     for chunk in core.split(ints, 16):
         jobs.append(("int", chunk))
     part = core.fan_out(ctx, _dispatch, jobs)
+    check_equal_value_histories(part)
     from .. import callforms              # pylint: disable=import-outside-toplevel
     part.merge(callforms.explore("C20"))
     cnt = part.counters
@@ -450,6 +474,15 @@ def replay(case):
     if case.get("kind") == "callform":
         from .. import callforms          # pylint: disable=import-outside-toplevel
         return callforms.replay(case)
+    if case["kind"] == "duration_after":
+        first = {"-0.0": -0.0, "True": True, "False": False}.get(case["first"])
+        if first is None:
+            first = float(case["first"]) if "." in case["first"] else int(case["first"])
+        try:
+            _lib().format_hms(first, case["milliseconds"])
+        except Exception:                   # pylint: disable=broad-except
+            pass
+        return [m for _c, m in check_duration(case["value"], case["milliseconds"])]
     if case["kind"] == "duration_decimal":
         return [m for _c, m in check_duration(case["value"], case["milliseconds"],
                                               case["setting"])]
